@@ -152,6 +152,22 @@ def tlc_violated(res):
     return m.group(0) if m else None
 
 
+def larking_panic(text):
+    """If text holds a Go panic of a driver process whose panicking goroutine is inside larking (a larking frame comes before
+    any frame of the harness), returns a short description; else None.  A server that dies is a verdict (C09), a harness that
+    dies is not."""
+    m = re.search(r"^panic: (.*)$", text, re.M)
+    if not m:
+        return None
+    for blk in re.findall(r"goroutine \d+ \[running\]:\n((?:.+\n?)+)", text):
+        for line in blk.splitlines():
+            if line.startswith("larking.io/larking."):
+                return "panic: %s (in %s)" % (m.group(1)[:200], line.split("(")[0])
+            if line.startswith("main."):
+                break
+    return None
+
+
 # ---- known findings --------------------------------------------------------------
 
 def load_findings():
